@@ -1,8 +1,8 @@
 """Reference layouts for C08, written from ASHRAE 135 clause 6.2 (NPCI) and clause 6.4
 (network layer messages).  Independent of bacpypes: only ints, bytes, lists and tuples.
 
-Arithmetic uses + * // % and `sym & CONST` only (no | & ^ between two symbolic ints), so
-the very same code runs on z3-backed values and on plain ints.
+Arithmetic uses + * // % and masks by a constant only (no | & ^ between two symbolic ints),
+so the very same code runs on z3-backed values and on plain ints.
 
 Address shapes used throughout:
     dadr:  None | ('station', net, addr) | ('rbcast', net) | ('global',)
@@ -11,8 +11,8 @@ Address shapes used throughout:
 
 
 def defined_control_bits(ctl):
-    """the control octet with the reserved bits 6 and 4 cleared (arithmetic only: a
-    multi-bit mask on a symbolic int makes CrossHair enumerate its values)"""
+    """the control octet with the reserved bits 6 and 4 cleared (arithmetic only: a mask
+    with a hole, like 0xAF, makes CrossHair enumerate the values of a symbolic int)"""
     return ctl - ((ctl // 64) % 2) * 64 - ((ctl // 16) % 2) * 16
 
 
